@@ -16,8 +16,8 @@
 use chrono::{DateTime, Duration, Utc};
 use clap::Parser;
 use squitterator::{
-    Args, DF, Downlink, Plane, Planes, UpdateFromDownlink, get_downlink_format, get_icao,
-    get_message, set_observer_coords_from_str, spawn_reader_thread,
+    Args, DF, DisplayFlags, Downlink, Plane, Planes, UpdateFromDownlink, format_simple_display,
+    get_downlink_format, get_icao, get_message, set_observer_coords_from_str, spawn_reader_thread,
 };
 use std::collections::HashMap;
 use std::fmt::Write as _;
@@ -41,6 +41,10 @@ struct Opts {
     args: Vec<String>,
     relaxed: bool,
     observer: Option<String>,
+    /// the -i letters of the case (kind D renders rows with them; the reader itself stays quiet there)
+    info: String,
+    /// write the downlink log (-D) into the scratch directory
+    dlog: bool,
 }
 
 fn parse_opts(s: &str) -> Opts {
@@ -48,6 +52,8 @@ fn parse_opts(s: &str) -> Opts {
     let mut relaxed = false;
     let mut observer = None;
     let mut have_i = false;
+    let mut info = String::new();
+    let mut dlog = false;
     for kv in s.split(',') {
         if kv.is_empty() || kv == "-" {
             continue;
@@ -84,6 +90,7 @@ fn parse_opts(s: &str) -> Opts {
             }
             "i" => {
                 have_i = true;
+                info = v.replace('+', "");
                 for x in v.split('+') {
                     args.push("-i".into());
                     args.push(x.into())
@@ -102,6 +109,10 @@ fn parse_opts(s: &str) -> Opts {
                 }
             }
             "O" => observer = Some(String::from_utf8_lossy(&unhex(v)).into_owned()),
+            "D" => {
+                // --downlink-log into a scratch file (no effect on the table expected)
+                dlog = v == "1";
+            }
             _ => panic!("unknown opt {}", k),
         }
     }
@@ -113,6 +124,8 @@ fn parse_opts(s: &str) -> Opts {
         args,
         relaxed,
         observer,
+        info,
+        dlog,
     }
 }
 
@@ -226,7 +239,7 @@ fn dump_row(p: &Plane, now: DateTime<Utc>, o: &mut String) {
     .unwrap();
 }
 
-fn dump_table(t: &Arc<RwLock<HashMap<u32, Plane>>>, o: &mut String) {
+fn dump_table(t: &Arc<RwLock<HashMap<u32, Plane>>>, o: &mut String, show: Option<&str>) -> bool {
     let g = match t.read() {
         Ok(g) => g,
         Err(p) => p.into_inner(),
@@ -235,14 +248,32 @@ fn dump_table(t: &Arc<RwLock<HashMap<u32, Plane>>>, o: &mut String) {
     let mut keys: Vec<&u32> = g.keys().collect();
     keys.sort();
     let mut first = true;
+    let mut ok = true;
     for k in keys {
         if !first {
             o.push('|');
         }
         first = false;
         write!(o, "key={:06X} ", k).unwrap();
-        dump_row(&g[k], now, o);
+        match show {
+            None => dump_row(&g[k], now, o),
+            Some(flags) => {
+                // kind D: the row as the table prints it (blanks shown as '_' so that the observation stays one token)
+                let p = &g[k];
+                let r = std::panic::catch_unwind(std::panic::AssertUnwindSafe(|| {
+                    format_simple_display(p, &DisplayFlags::from_arg_str(flags))
+                }));
+                match r {
+                    Ok(line) => write!(o, "disp={} ", line.replace(' ', "_")).unwrap(),
+                    Err(_) => {
+                        write!(o, "disp=PANIC ").unwrap();
+                        ok = false;
+                    }
+                }
+            }
+        }
     }
+    ok
 }
 
 fn shift_plane(p: &mut Plane, d: Duration) {
@@ -272,7 +303,7 @@ fn shift_table(t: &Arc<RwLock<HashMap<u32, Plane>>>, ms: i64) {
     }
 }
 
-fn run_h(opts: &Opts, body: &str, tmp: &str, id: &str) -> (String, String) {
+fn run_h(opts: &Opts, body: &str, tmp: &str, id: &str, show: bool) -> (String, String) {
     if let Some(o) = &opts.observer {
         set_observer_coords_from_str(o);
     }
@@ -314,6 +345,30 @@ fn run_h(opts: &Opts, body: &str, tmp: &str, id: &str) -> (String, String) {
         }
         std::fs::write(&path, &content).expect("write seg");
         let mut a = opts.args.clone();
+        if show {
+            // the reader stays quiet; the -i letters are used for rendering only
+            let mut b: Vec<String> = Vec::new();
+            let mut skip = false;
+            for x in a.iter() {
+                if skip {
+                    skip = false;
+                    continue;
+                }
+                if x == "-i" {
+                    skip = true;
+                    continue;
+                }
+                b.push(x.clone());
+            }
+            b.push("-i".into());
+            b.push("Q".into());
+            a = b;
+        }
+        let dpath = format!("{}/dlog-{}-{}.txt", tmp, std::process::id(), id.replace('/', "_"));
+        if opts.dlog {
+            a.push("-D".into());
+            a.push(dpath.clone());
+        }
         a.push("-s".into());
         a.push(path.clone());
         let args = Arc::new(Args::parse_from(a));
@@ -331,10 +386,15 @@ fn run_h(opts: &Opts, body: &str, tmp: &str, id: &str) -> (String, String) {
                 outcome = "panic".into();
             }
         }
+        if opts.dlog {
+            let _ = std::fs::remove_file(&dpath);
+        }
         if t0.elapsed().as_millis() > 350 {
             slow += 1;
         }
-        dump_table(&table, &mut out);
+        if !dump_table(&table, &mut out, if show { Some(opts.info.as_str()) } else { None }) {
+            outcome = "panic".into();
+        }
         if outcome == "panic" {
             break;
         }
@@ -470,7 +530,8 @@ fn main() {
         let (id, kind, opts, body) = (parts[0], parts[1], parts[2], parts[3]);
         let opts = parse_opts(opts);
         let (outcome, obs) = match kind {
-            "H" => run_h(&opts, body, tmp, id),
+            "H" => run_h(&opts, body, tmp, id, false),
+            "D" => run_h(&opts, body, tmp, id, true),
             "G" => run_g(body),
             "M" => run_m(&opts, body),
             "K" => run_k(body),
